@@ -496,6 +496,34 @@ func (e *Env) scopeLookup(name string) (*types.Scope, types.Object) {
 	return s, obj
 }
 
+// resolvable: would ident find this name (bound name, range key, scope,
+// universe, or a local declared further down)?
+func (e *Env) resolvable(name string) bool {
+	switch name {
+	case "true", "false", "nil", "rangeidx":
+		return true
+	}
+	if _, ok := e.vars[name]; ok {
+		return true
+	}
+	if _, obj := e.scopeLookup(name); obj != nil {
+		return true
+	}
+	if types.Universe.Lookup(name) != nil {
+		return true
+	}
+	if e.x != nil && e.useCells {
+		for _, a := range e.x.allocByPos {
+			if a.Comment == name {
+				if cv, ok := e.st.cells[e.x.cellKey(a)]; ok && cv.S != "" {
+					return true
+				}
+			}
+		}
+	}
+	return false
+}
+
 func (e *Env) ident(id *ast.Ident, hint types.Type) Val {
 	c := e.c
 	switch id.Name {
@@ -512,10 +540,17 @@ func (e *Env) ident(id *ast.Ident, hint types.Type) Val {
 	if v, ok := e.vars[id.Name]; ok {
 		return v
 	}
-	if e.x != nil && e.fn != nil {
-		if nn, ok := e.x.p.renamesOf(e.fn)[id.Name]; ok && nn != id.Name {
-			// the variable was renamed in the code since the contract was written
-			return e.ident(&ast.Ident{NamePos: id.NamePos, Name: nn}, hint)
+	if e.x != nil && e.fn != nil && !e.resolvable(id.Name) {
+		// the variable may have been renamed in the code since the contract
+		// was written (renames.go): take the one current name that resolves here
+		var hit []string
+		for _, nn := range e.x.p.renamedCandidates(e.fn, id.Name) {
+			if e.resolvable(nn) {
+				hit = append(hit, nn)
+			}
+		}
+		if len(hit) == 1 {
+			return e.ident(&ast.Ident{NamePos: id.NamePos, Name: hit[0]}, hint)
 		}
 	}
 	// range key of the loop the invariant belongs to: next index to be processed
@@ -927,8 +962,9 @@ func (e *Env) callExpr(ex *ast.CallExpr, hint types.Type) Val {
 				e.fail("local(name, k): bad arguments")
 			}
 			k, _ := strconv.Atoi(lit.Value)
-			if nn, ok := e.x.p.renamesOf(e.x.fn)[id2.Name]; ok {
+			if nn, k2 := e.x.p.renamedLocal(e.x.fn, id2.Name, k); nn != id2.Name || k2 != k {
 				id2 = &ast.Ident{NamePos: id2.NamePos, Name: nn}
+				k = k2
 			}
 			var cands []*ssa.Alloc
 			for _, a := range e.x.allocByPos {
